@@ -15,7 +15,7 @@ const rule = "explicitly enumerated program space inside the Go backend's subset
 	"(meth) typed/optional/named/rest parameters, recursion, classes, modules; (coll) list/tuple/map/set/range literals × element kinds × {inspect, length, index, store, append, concat, iterate, map with closure}; " +
 	"(str) interpolation and String methods; (clos) closures capturing and mutating locals; (sel) switch/logical/nil-handling; (catch) do/catch/finally; " +
 	"(err) one program per uncaught-error kind {Int / 0, Int % 0, list index, tuple index, must nil, failed as-cast, thrown symbol} × call depth 0..2 × raising site {assignment, argument, statement} plus class-method/closure/loop frames. " +
-	"Quick tier batches the items of one (family, construct) into one program (isolating a deviating item costs one more build each); thorough builds every item alone and adds operand pairs. " +
+	"Every item is its own program (a case groups the items of one construct); the thorough tier adds operand pairs (boundary Ints, signed zeros, float division by zero), every raising site of every error kind and depth-3 control-flow nestings (loop × {if, while, for-in} × {println, break, continue, return, labelled break, break-with-value}). " +
 	"Non-trivial = a program that the backend accepted and that was built and executed; rejected/backend-panicking programs are counted separately and are not violations."
 
 // item: one independent construct instance. Defs go to the top of the program (callee first), Code is top-level code.
@@ -73,9 +73,9 @@ func assemble(items []item) string {
 
 type opdef struct {
 	sym, name string
-	res      string // result type in a typed method
-	compound bool
-	union    bool
+	res       string // result type in a typed method
+	compound  bool
+	union     bool
 }
 
 var intOps = []opdef{
@@ -238,8 +238,12 @@ func opBatches(thorough bool) []batch {
 		mixOps[i].compound = false
 		mixOps[i].union = false
 	}
-	add("int-float", "Int", "Float", mixOps, func(op string) [][2]string { return [][2]string{{"7", "2.5"}, {"-3", "0.5"}, {"0", "1.5"}, {"2", "2.0"}} })
-	add("float-int", "Float", "Int", mixOps, func(op string) [][2]string { return [][2]string{{"2.5", "7"}, {"0.5", "-3"}, {"1.5", "2"}, {"2.0", "2"}} })
+	add("int-float", "Int", "Float", mixOps, func(op string) [][2]string {
+		return [][2]string{{"7", "2.5"}, {"-3", "0.5"}, {"0", "1.5"}, {"2", "2.0"}}
+	})
+	add("float-int", "Float", "Int", mixOps, func(op string) [][2]string {
+		return [][2]string{{"2.5", "7"}, {"0.5", "-3"}, {"1.5", "2"}, {"2.0", "2"}}
+	})
 	// String * Int
 	{
 		var items []item
@@ -254,7 +258,10 @@ func opBatches(thorough bool) []batch {
 	// unary operators
 	{
 		var items []item
-		un := []struct{ typ, sym, name, res string; vals []string }{
+		un := []struct {
+			typ, sym, name, res string
+			vals                []string
+		}{
 			{"Int", "-", "neg", "Int", []string{"7", "-7", "0", "9223372036854775807", "18446744073709551616"}},
 			{"Int", "+", "pos", "Int", []string{"7", "-7"}},
 			{"Int", "~", "not", "Int", []string{"7", "-7", "0", "18446744073709551616"}},
@@ -425,6 +432,57 @@ func cfItem(outer, inner string, inMethod bool) (item, bool) {
 
 var cfVarRe = regexp.MustCompile(`\b([nijexy])\b`)
 
+// cf3Item: depth-3 nesting (thorough tier): loop outer, {if, while, for-in} in the middle, a jump innermost.
+func cf3Item(outer, mid, inner string) (item, bool) {
+	tag := fmt.Sprintf("cf3.%s.%s.%s", outer, mid, inner)
+	iv := "i"
+	if outer == "forlist" {
+		iv = "e"
+	}
+	in, ok := cfInnerCode(tag, inner, iv, true, true, "o")
+	if !ok {
+		return item{}, false
+	}
+	var m string
+	switch mid {
+	case "if":
+		m = fmt.Sprintf("if %s > 0\n%send\n", iv, ind(in, 1))
+	case "while":
+		m = fmt.Sprintf("m := 0\nwhile m < 2\n  m += 1\n%send\n", ind(in, 1))
+	case "forrange":
+		m = fmt.Sprintf("for m in 1...2\n%send\n", ind(in, 1))
+	}
+	label := ""
+	if inner == "lbreak" {
+		label = "$o: "
+	}
+	var s string
+	switch outer {
+	case "while":
+		s = fmt.Sprintf("i := 0\n%swhile i < n\n  i += 1\n%send\n", label, ind(m, 1))
+	case "until":
+		s = fmt.Sprintf("i := 0\n%suntil i >= n\n  i += 1\n%send\n", label, ind(m, 1))
+	case "loop":
+		s = fmt.Sprintf("i := 0\n%sloop\n  i += 1\n  break if i > n\n%send\n", label, ind(m, 1))
+	case "forrange":
+		s = fmt.Sprintf("%sfor i in 1...n\n%send\n", label, ind(m, 1))
+	case "forlist":
+		s = fmt.Sprintf("%sfor e in [1, 2, n]\n%send\n", label, ind(m, 1))
+	case "fornum":
+		s = fmt.Sprintf("%sfornum i := 1; i <= n; i += 1\n%send\n", label, ind(m, 1))
+	default:
+		return item{}, false
+	}
+	s += fmt.Sprintf("println(\"%s/end \" + n.inspect)\n", tag)
+	name := fmt.Sprintf("cf3_%s_%s_%s", outer, mid, inner)
+	b := newIB(tag, name)
+	b.def("def %s(n: Int): Int\n%s  n\nend", name, ind(s, 1))
+	for n := 0; n <= 3; n++ {
+		b.obs(fmt.Sprintf("ret%d", n), fmt.Sprintf("%s(%d)", name, n))
+	}
+	return b.item(fmt.Sprintf("control-flow outer=%s mid=%s inner=%s", outer, mid, inner)), true
+}
+
 func cfBatches(thorough bool) []batch {
 	var out []batch
 	for _, inMethod := range []bool{true, false} {
@@ -440,6 +498,22 @@ func cfBatches(thorough bool) []batch {
 				ctx = "meth"
 			}
 			out = append(out, batch{ID: fmt.Sprintf("cf/%s/%s", ctx, o), Family: "control-flow", Items: items})
+		}
+	}
+	if thorough {
+		for _, o := range cfOuter {
+			if !isLoop(o) {
+				continue
+			}
+			for _, mid := range []string{"if", "while", "forrange"} {
+				var items []item
+				for _, in := range []string{"print", "break", "continue", "return", "lbreak", "breakvalue"} {
+					if it, ok := cf3Item(o, mid, in); ok {
+						items = append(items, it)
+					}
+				}
+				out = append(out, batch{ID: fmt.Sprintf("cf3/%s/%s", o, mid), Family: "control-flow", Items: items})
+			}
 		}
 	}
 	return out
@@ -791,20 +865,6 @@ func space(thorough bool) []batch {
 	bs = append(bs, closBatches()...)
 	bs = append(bs, selBatches()...)
 	bs = append(bs, errBatches(thorough)...)
-	if thorough {
-		// every item alone (finer attribution, no interaction between items of one program)
-		var out []batch
-		for _, b := range bs {
-			if len(b.Items) == 1 {
-				out = append(out, b)
-				continue
-			}
-			for _, it := range b.Items {
-				out = append(out, batch{ID: b.ID + "/" + it.Tag, Family: b.Family, Items: []item{it}})
-			}
-		}
-		return out
-	}
 	return bs
 }
 
